@@ -7,11 +7,14 @@
   kinds).  The implementation is tied to the reference by tools/props/c05.py: positions of pymarkdown's tokens =
   positions of the reference's events through the refinement map `abs` (on documents whose structure agrees), plus the
   same opener table evaluated directly on pymarkdown's tokens, independent of LeanMark.
-  Inline positions are checked dynamically only (the opener table applied to the reference's own inline events on
-  every explored document, and to pymarkdown's); there is no inline `L_opener` theorem.
+  Inline positions: `L_inline_opener` / `L_inline_opener_partial` below state the opener table for the reference's
+  inline events (every kind that has an opening character); the harness still applies the same table dynamically to
+  the reference's events on every explored document, and to pymarkdown's.
 -/
 import Verif.Lemmas.LeanMarkBalanced
 import Verif.Lemmas.LeanMarkOpener
+import Verif.Lemmas.LeanMarkInlineOpener
+import Verif.Lemmas.LeanMarkPayloadSrc
 namespace Verif.Props.C05
 open Verif.Model.LeanMark
 
@@ -57,5 +60,111 @@ example : openers ["-\t\tcode".toList, "  <div>".toList, [], " [a]: /u".toList, 
 /-- what the opener statement says for one kind, unfolded: a block quote's position carries `>`. -/
 theorem quote_opener (rd : Reading) (lines : List Line) (p : Pos) (h : Ev.open .quote p ∈ eventsR rd lines) :
     charAt lines p = some '>' := L_opener rd lines _ h
+
+/-! ## inline events -/
+
+/-- **L_payload_src**: every payload line of every leaf event is a piece of the document line it names — the line
+    exists and the text, tab-expanded from its column `col0`, is a prefix of the tab-expanded line from that column on
+    (`PLineSrc`, Lemmas/LeanMarkPayloadSrc.lean).  This is what ties inline positions to the document. -/
+theorem L_payload_src (rd : Reading) (doc : List Line) : ∀ e ∈ eventsR rd doc, ∀ pl ∈ e.payload, PLineSrc doc pl :=
+  Verif.Model.LeanMark.L_payload_src rd doc
+
+/-- **L_inline_opener** (every inline kind that has an opening character).  For every reading, every document whose
+    lines contain no line ending and no `&`, every leaf event of the document and every reference map: the character of
+    the tab-expanded document line at the position of each inline event of the leaf's text is the element's opening
+    character (`IOpenerOK`, Lemmas/LeanMarkInlineOpener.lean) —
+    `` ` `` code span; `<` autolink and raw HTML; `*` or `_` emphasis; strong emphasis: the same `*` / `_` at the
+    position and at the next column; `[` link; `!` image, followed by `[`; hard break: `\` or a space (the first of
+    the trailing spaces).  Text runs and soft breaks carry positions but have no opening character. -/
+theorem L_inline_opener (rd : Reading) (doc : List Line) (hnl : ∀ l ∈ doc, ∀ c ∈ l, c ≠ '\n')
+    (hamp : ∀ l ∈ doc, ∀ c ∈ l, c ≠ '&') (refs : RefMap) (k : LeafKind) (p : Pos) (e : Nat) (payload : List PLine)
+    (h : Ev.leaf k p e payload ∈ eventsR rd doc) :
+    ∀ ie ∈ parseInlines refs payload, IOpenerOK (VDoc doc) true ie :=
+  inline_opener_doc rd doc hnl true (fun _ => hamp) refs _ h
+
+/-- **L_inline_opener_partial**: the same without the hypothesis on `&`, for every kind except the hard break
+    (`IOpenerOK … false` imposes nothing on hard breaks). -/
+theorem L_inline_opener_partial (rd : Reading) (doc : List Line) (hnl : ∀ l ∈ doc, ∀ c ∈ l, c ≠ '\n')
+    (refs : RefMap) (k : LeafKind) (p : Pos) (e : Nat) (payload : List PLine)
+    (h : Ev.leaf k p e payload ∈ eventsR rd doc) :
+    ∀ ie ∈ parseInlines refs payload, IOpenerOK (VDoc doc) false ie :=
+  inline_opener_doc rd doc hnl false (fun hb => by cases hb) refs _ h
+
+/-- the lines of a document given as text contain no line ending, so the hypothesis `hnl` is void for them. -/
+theorem docLines_noNL (d : List Char) : ∀ l ∈ docLines d, ∀ c ∈ l, c ≠ '\n' := by
+  have key : ∀ (cs acc : List Char) (out : List Line), (∀ c ∈ acc, c ≠ '\n') → (∀ l ∈ out, ∀ c ∈ l, c ≠ '\n') →
+      ∀ l ∈ splitLinesGo cs acc out, ∀ c ∈ l, c ≠ '\n' := by
+    intro cs
+    induction cs with
+    | nil =>
+      intro acc out ha ho l hl c hc
+      simp only [splitLinesGo, List.mem_reverse, List.mem_cons] at hl
+      rcases hl with rfl | hl
+      · exact ha c (List.mem_reverse.mp hc)
+      · exact ho l hl c hc
+    | cons x cs ih =>
+      intro acc out ha ho
+      unfold splitLinesGo
+      split
+      · apply ih [] _ (by simp)
+        intro l hl c hc
+        rcases List.mem_cons.mp hl with rfl | hl
+        · exact ha c (List.mem_reverse.mp hc)
+        · exact ho l hl c hc
+      · next hx =>
+        apply ih _ _ _ ho
+        intro c hc
+        rcases List.mem_cons.mp hc with rfl | hc
+        · simpa using hx
+        · exact ha c hc
+  intro l hl
+  have hall := key d [] [] (by simp) (by simp)
+  unfold docLines at hl
+  simp only at hl
+  split at hl
+  · next r heq =>
+    apply hall l
+    have : l ∈ (splitLinesGo d [] []).reverse.reverse := by
+      rw [heq]; simp only [List.reverse_cons, List.mem_append]; exact Or.inl hl
+    simpa using this
+  · exact hall l hl
+
+/-- document form of the partial theorem: no hypothesis at all. -/
+theorem L_inline_opener_doc (rd : Reading) (d : List Char) (refs : RefMap) (k : LeafKind) (p : Pos) (e : Nat)
+    (payload : List PLine) (h : Ev.leaf k p e payload ∈ eventsR rd (docLines d)) :
+    ∀ ie ∈ parseInlines refs payload, IOpenerOK (VDoc (docLines d)) false ie :=
+  L_inline_opener_partial rd _ (docLines_noNL d) refs k p e payload h
+
+/-- position of an inline event that has one. -/
+def iPos? : IEv → Option Pos
+  | .text _ p | .softbreak p | .hardbreak p | .code _ p | .rawHtml _ p | .autolink _ _ p | .openEmph p
+  | .openStrong p | .openLink _ _ p | .openImage _ _ p => some p
+  | _ => none
+
+def iIsText : IEv → Bool
+  | .text .. | .softbreak .. => true
+  | _ => false
+
+/-- (line, column, character of the tab-expanded line there) of every inline event with an opening character. -/
+def inlineOpeners (doc : List Line) : List (Nat × Nat × Option Char) :=
+  (events doc).flatMap fun e =>
+    ((parseInlines (refMapOf (events doc)) e.payload).filter (fun ie => !iIsText ie)).filterMap fun ie =>
+      (iPos? ie).map fun p => (p.line, p.col, charAt doc p)
+
+set_option maxRecDepth 1000000 in
+/-- emphasis, strong, code span, link, image, autolink, raw HTML in a block quote inside a list item after a tab;
+    hard breaks of both kinds on continuation lines that start with a tab. -/
+example : inlineOpeners ["-\t> *a* **b** `c` [d](/u) ![i](/v) <http://x.y> <b>".toList, "\t> e  ".toList,
+      "\t> f\\".toList, "\t> g".toList] =
+    [(1, 7, some '*'), (1, 11, some '*'), (1, 17, some '`'), (1, 21, some '['), (1, 29, some '!'),
+     (1, 38, some '<'), (1, 51, some '<'), (2, 8, some ' '), (3, 8, some '\\')] := by rfl
+
+/-- **excluded case of `L_inline_opener`** (why `&` is excluded): trailing spaces produced by character references
+    count towards a hard break in the reference, and its position is computed as if they were literal spaces. -/
+example :
+    parseInlines [] [⟨1, 0, "a&#32;&#32;".toList⟩, ⟨2, 0, "b".toList⟩] =
+      [.text ['a'] ⟨1, 1⟩, .hardbreak ⟨1, 10⟩, .text ['b'] ⟨2, 1⟩] ∧
+    charAt ["a&#32;&#32;".toList, "b".toList] ⟨1, 10⟩ = some '2' := by
+  constructor <;> rfl
 
 end Verif.Props.C05
